@@ -149,11 +149,12 @@ def run(tier, seed, only=None):
     res = core.Result("C15", tier, seed)
     rng = random.Random("C15-%d" % seed)
     # ---- (i) run-time parse
-    ptypes = [("long", "i64", 63), ("vf::i128", "i128", 127), ("cnl::wide_integer<200,int>", "wide200", 200), ("int", "i32", 31)] + ([("cnl::wide_integer<1000,int>", "wide1000", 1000)] if tier == "thorough" else [])
+    ptypes = [("long", "i64", 63), ("vf::i128", "i128", 127), ("cnl::wide_integer<200,int>", "wide200", 200), ("int", "i32", 31), ("short", "i16", 15), ("cnl::wide_integer<500,int>", "wide500", 500)] \
+        + ([("cnl::wide_integer<1000,int>", "wide1000", 1000), ("signed char", "i8", 7)] if tier == "thorough" else [])
     parse_jobs = []
     tokmap = {}
     for kid, (tc, tn, bits) in enumerate(ptypes):
-        toks = gen_tokens(rng, bits, 3 if tier == "quick" else 12)
+        toks = gen_tokens(rng, bits, 10 if tier == "quick" else 40)
         tokmap[kid] = toks
         arr = ",\n".join('"%s"' % t for t in toks)
         src = '#include "harness/c15.h"\nstatic char const* toks[] = {\n%s\n};\nint main() { vf::install(); c15::parse_run<%s>("parse<%s>", %d, toks, %d); vf::finish(); }\n' % (arr, tc, tn, kid, len(toks))
